@@ -4,6 +4,7 @@
 //! inputs and prints observation records for the Lean driver on stdout.
 
 mod config;
+mod dimacs_mode;
 mod drcp;
 mod model;
 mod post;
@@ -561,6 +562,27 @@ fn mode_one(args: &Args) {
     });
 }
 
+/// C14: the real byte-level DIMACS parser against the Lean model, on generated files.
+fn mode_dimacs(args: &Args) {
+    let mut master = Rng::new(args.seed ^ 0xD1AC5);
+    for i in 0..args.cases {
+        let case_seed = master.next();
+        if only_skip(args, i) {
+            continue;
+        }
+        let mut r = Rng(case_seed);
+        let bytes = dimacs_mode::gen_file(&mut r);
+        let chunk_seed = if r.chance(1, 2) { Some(r.next()) } else { None };
+        let id = format!("{}-{}", args.seed, i);
+        run_case(&id, &format!("scen=dimacs seed={} chunks={}", case_seed, chunk_seed.is_some()), |out| {
+            let res = dimacs_mode::run_real(&bytes, chunk_seed);
+            let toks: Vec<String> = bytes.iter().map(|b| b.to_string()).collect();
+            out.meta(format!("text {:?}", String::from_utf8_lossy(&bytes)));
+            out.push(format!("dimacs {} {} :: {}", bytes.len(), toks.join(" "), res));
+        });
+    }
+}
+
 fn main() {
     install_panic_hook();
     let args = parse_args();
@@ -576,6 +598,7 @@ fn main() {
         "bounds" => mode_bounds(&args),
         "tap" => mode_tap(&args),
         "drcp" => mode_drcp(&args),
+        "dimacs" => mode_dimacs(&args),
         "proof" => mode_proof(&args),
         "configs" => mode_configs(&args),
         "interrupt" => mode_interrupt(&args),
